@@ -232,6 +232,19 @@ def make_derived_base(B, base, f, scale=1):
     return Base(B, f"{base.name}-x{f}" + (f"-scaled{scale}" if scale != 1 else ""), spec, base.mname, pix, base.symm, scale=scale)
 
 
+_CLI = {}
+
+
+def cli_ls(path):
+    """`cooler ls FILE` in-process -> (exit code, listed URIs with the file path replaced by FILE)"""
+    if not _CLI:
+        from click.testing import CliRunner
+        from cooler.cli import cli
+        _CLI.update(runner=CliRunner(), cli=cli)
+    res = invoke(_CLI["runner"], _CLI["cli"], ["ls", path])
+    return res.exit_code, [ln.replace(path, "FILE") for ln in (res.output or "").split()]
+
+
 def check_zoom(B, bases, targets, out, case, kind, cols=("count",), nontrivial=True):
     """all file-level contracts on a zoomified file"""
     base_by_res = {b.res: b for b in bases}
@@ -253,6 +266,11 @@ def check_zoom(B, bases, targets, out, case, kind, cols=("count",), nontrivial=T
     B.check("levels==bases-U-targets-exactly-once", ok, case, dict(root=root, groups=grp, list_coolers=listed),
             dict(root=["resolutions"], list_coolers=exp_paths), nontrivial,
             signature=f"levels==bases-U-targets-exactly-once:{kind}")
+    ls = B.guarded("cli-ls==levels", case, lambda: cli_ls(out), signature=f"cli-ls==levels:exception:{kind}")
+    if ls is not None:
+        want = ["FILE::" + p_ for p_ in exp_paths]
+        B.check("cli-ls==levels", ls[0] == 0 and ls[1] == want, case, dict(exit_code=ls[0], listed=ls[1]), want, nontrivial,
+                signature=f"cli-ls==levels:{kind}")
     mr = B.guarded("recognised-as-multires", case, lambda: (is_multires_file(out), is_multires_file(out, min_version=2)),
                    signature=f"recognised-as-multires:exception:{kind}")
     if mr is not None:
@@ -406,7 +424,7 @@ def main():
                   if T else
                   "all subsets of size<=2 of {1,2,3,4,6,8,12}*base + 15 seeded subsets of size 3 + the full set + 6 seeded larger subsets on a fixed base (orders rotate sorted/reversed/shuffled), all subsets of size<=2 on a variable base, all orders of {2,3,6} and {1,2,4}, ")
                + "chunksize in {2,7,10^6} rotating, nproc in {1,2}; 1-2 base URIs (consistent and inconsistent second base, either order); "
-               "non-multiples / below-base targets; extra value column; float64-fractional and int64-beyond-2^31 counts x 8 ways of leaving the dtype unspecified (API: omitted/None/{}/other-column-only/agg-only; CLI: no --field/--field count/--field count:agg=sum) with levels derived from derived levels; `cooler zoomify` CLI in-process"
+               "non-multiples / below-base targets; extra value column; float64-fractional and int64-beyond-2^31 counts x 8 ways of leaving the dtype unspecified (API: omitted/None/{}/other-column-only/agg-only; CLI: no --field/--field count/--field count:agg=sum) with levels derived from derived levels; histories on the output path (sample A with T1, then a different sample B with T2 into the SAME file: overlapping/disjoint/same/subset/empty T2 x same bins/other bins/other resolution/same sample x API/CLI order); `cooler ls` on every file; `cooler zoomify` CLI in-process"
                + ("; plus seeded random bases/target sets/orders/chunksizes" if T else ""))
     B.rule = ("case = (base cooler(s) with pixel lists, target list in the given order, chunksize, nproc[, level]); non-trivial when the "
               "base has pixels and the level set has more than one member; distinct by case")
@@ -608,6 +626,59 @@ def main():
                             if os.path.exists(out):
                                 os.remove(out)
                 os.remove(parse_cooler_uri(bv.uri)[0])
+
+    # ---------------------------------------------------------------- 6c. histories on the output path
+    # the property speaks about "a zoomified file" as the result of ONE zoomify run: whatever the output path held before
+    # (here: the result of zoomifying a DIFFERENT sample with a different target set) must leave no trace - exactly the
+    # levels bases(B) U T2, every level computed from B, `cooler ls` in agreement
+    from click.testing import CliRunner as _CR
+    from cooler.cli import cli as _cli2
+    _r2 = _CR()
+    hA = Base(B, "fixed10-3chrom", mid, "dense", mat(mid, "dense"))
+    hB_same_bins = Base(B, "fixed10-3chrom", mid, "corners", mat(mid, "corners"), weight=True)
+    hB_other_bins = Base(B, "fixed10-short-last", small, "dense", mat(small, "dense"))
+    hB_other_res = Base(B, "fixed7-exact-12+4bins", exact7, "sparse-empty-row", mat(exact7, "sparse-empty-row"))
+    pairs_ = [("overlapping", (2, 4, 8), (6, 2)), ("disjoint", (2, 4), (3,)), ("same-set", (2, 4), (2, 4)),
+              ("subset", (2, 4, 8), (4,)), ("only-base-left", (2,), ())]
+    seconds = [("same-bins", hB_same_bins), ("other-bins", hB_other_bins), ("other-resolution", hB_other_res), ("same-sample", hA)]
+    vias = [("api", "api"), ("cli", "cli"), ("api", "cli"), ("cli", "api")]
+    hn = 0
+
+    def zoom_via(via, base, targets, out, cs):
+        """-> None when it ran, else a description of what went wrong"""
+        if via == "api":
+            try:
+                with_timeout(lambda: cooler.zoomify_cooler(base.uri, out, list(targets), cs))
+                return None
+            except Exception as e:
+                return f"{type(e).__name__}: {e}"
+        if not targets:
+            args = ["zoomify", "-r", str(base.res), "-c", str(cs), "-o", out, base.uri]   # the CLI cannot say "no targets": name the base
+        else:
+            args = ["zoomify", "-r", ",".join(str(t) for t in targets), "-c", str(cs), "-o", out, base.uri]
+        res = invoke(_r2, _cli2, args)
+        return None if (res.exit_code == 0 and res.exception is None) else f"exit {res.exit_code}: {res.exception!r}"
+
+    for pi_, (pname, m1, m2) in enumerate(pairs_):
+        for si_, (sname, second) in enumerate(seconds):
+            for vi_, (v1, v2) in enumerate(vias):
+                hn += 1
+                if not T and not (vi_ == (pi_ + si_) % 4 or (pname == "overlapping" and sname == "same-bins")):
+                    continue   # quick: every (target pair, second sample) once with a rotating API/CLI order, the first one with all four; thorough: all
+                t1 = order_of([m * hA.res for m in m1], HOW[hn % 3], rng)
+                t2 = order_of([m * second.res for m in m2], HOW[(hn + 1) % 3], rng)
+                cs = CS[hn % 3]
+                kind = f"history:{pname}:{sname}"
+                out = B.path(f"hist{hn}.mcool")
+                case = dict(first=dict(base=hA.describe(), targets=t1, via=v1), bases=[second.describe()], targets=t2, via=v2, chunksize=cs)
+                err = zoom_via(v1, hA, t1, out, cs)
+                if err is None:
+                    err = zoom_via(v2, second, t2, out, cs)
+                if B.check("zoomify-over-earlier-output-runs", err is None, case, err, "both runs succeed",
+                           signature=f"zoomify-over-earlier-output-runs:{kind}"):
+                    check_zoom(B, [second], t2, out, case, kind)
+                if os.path.exists(out):
+                    os.remove(out)
 
     # ---------------------------------------------------------------- 7. CLI
     from click.testing import CliRunner
